@@ -136,6 +136,26 @@ impl<'ast> Visit<'ast> for LoopFinder {
                 ));
             }
         }
+        // D45: for PAT in V.drain(..) { ... }   (the whole vector is drained front to back)
+        if let syn::Expr::MethodCall(dr) = &*e.expr {
+            if dr.method == "drain" && dr.args.len() == 1 && e.label.is_none() {
+                if let syn::Expr::Range(rg) = &dr.args[0] {
+                    if rg.start.is_none() && rg.end.is_none() {
+                        let mut cf = OwnContinueFinder::default();
+                        cf.visit_block(&e.body);
+                        if !cf.found {
+                            let p0 = e.pat.span().byte_range();
+                            let rv = dr.receiver.span().byte_range();
+                            let for_kw = e.for_token.span().byte_range();
+                            self.vd.push(format!(
+                                "{{\"rule\":\"D45\",\"call\":[{},{}],\"pat\":[{},{}],\"recv\":[{},{}]}}",
+                                for_kw.start, b.start + 1, p0.start, p0.end, rv.start, rv.end
+                            ));
+                        }
+                    }
+                }
+            }
+        }
         // D43: for PAT in (LO..HI).rev() { ... }
         if let (syn::Pat::Ident(_), syn::Expr::MethodCall(rv)) = (&*e.pat, &*e.expr) {
             if rv.method == "rev" && rv.args.is_empty() && e.label.is_none() {
